@@ -543,6 +543,51 @@ def _increments(loop_node, name):
     return incs, others
 
 
+def _pos_term(t):
+    if t.op == "const" and isinstance(t.a[0], (int, float)) and not isinstance(t.a[0], bool):
+        return t.a[0] > 0
+    if t.op == "bin" and t.a[0] == "**" and t.a[2].op == "const" and isinstance(t.a[2].a[0], (int, float)) and t.a[2].a[0] % 2 == 0:
+        return True
+    if t.op == "bin" and t.a[0] == "*":
+        return _pos_term(t.a[1]) and _pos_term(t.a[2])
+    return False
+
+
+def _nonneg_term(t):
+    if _pos_term(t):
+        return True
+    if t.op == "call" and call_name(t) in ("np.abs", "builtins.abs", "np.square"):
+        return True
+    return False
+
+
+def _unit_term(t):
+    """(ok, why) for a summand given as a term: 1, or exp(-(nonneg)/(pos))"""
+    if t.op == "const" and t.a[0] in (1, 1.0) and not isinstance(t.a[0], bool):
+        return True, "1"
+    if t.op == "call" and call_name(t) in ("np.exp", "math.exp") and len(t.a[1]) == 1:
+        x = t.a[1][0]
+        if x.op == "un" and x.a[0] == "-" and (_nonneg_term(x.a[1]) or (x.a[1].op == "bin" and x.a[1].a[0] in ("/", "*") and _nonneg_term(x.a[1].a[1]) and _pos_term(x.a[1].a[2]))):
+            return True, "exp(non-positive) in (0, 1]"
+        if x.op == "bin" and x.a[0] in ("/", "*") and x.a[1].op == "un" and x.a[1].a[0] == "-" and _nonneg_term(x.a[1].a[1]) and _pos_term(x.a[2]):
+            return True, "exp(non-positive) in (0, 1]"
+    return False, "summand %s is not recognisably within [0, 1]" % tm.show(t, 3)
+
+
+def _sum_of_comp(t):
+    """(element, iterable) when t is sum(<comprehension over one iterable, no filter>)"""
+    t = strip_numeric(t)
+    if t.op == "call" and call_name(t) in ("builtins.sum", "np.sum") and len(t.a[1]) >= 1:
+        c = t.a[1][0]
+        if c.op == "call" and call_name(c) in ("np.array", "np.asarray", "builtins.list") and c.a[1]:
+            c = c.a[1][0]
+        if c.op == "comp" and c.a[0] in ("gen", "list") and len(c.a[2]) == 1 and not c.a[3]:
+            if len(t.a[1]) == 2 and not tm.is_const(t.a[1][1], 0):
+                return None
+            return c.a[1], c.a[2][0]
+    return None
+
+
 def _outer_loop_term(t):
     """the outermost loop term of an accumulator (init may itself be threaded through loopvars)."""
     t = strip_numeric(t)
@@ -577,12 +622,28 @@ def rule_accbound(ctx):
         f = ctx.program.func(qual, R)
         s = ctx.S.get(qual)
         hits = []
+        sums = []
         for d in s.by_kind("div"):
             if d.d.get("op", "/") != "/":
                 continue
             lt = _outer_loop_term(d.num)
             if lt is not None and not any(h[0].node is d.node for h in hits):
                 hits.append((d, lt))
+            elif lt is None and _sum_of_comp(d.num) is not None and not any(h[0].node is d.node for h in sums):
+                sums.append((d, _sum_of_comp(d.num)))
+        # the same accumulation written as sum(<generator>) / normaliser
+        for d, (elt, it_) in sums:
+            okk, uwhy = _unit_term(elt)
+            if not okk:
+                continue
+            cons = "%s:acc[%s]/[%s]" % (qual, _fingerprint(it_), _fingerprint(strip_numeric(d.den)))
+            good, why = _den_covers(s, d, strip_numeric(d.den), it_, None, [], "the sum")
+            if good is None:
+                raise AnalysisError(R, "%s: normaliser %s of the summed scores is in no recognised form" % (qual, tm.show(d.den, 3)))
+            hits_sum = getattr(rule_accbound, "_dummy", None)
+            yield ob(R, f, cons, good, "the sum adds at most 1 (%s) per element of %s; %s" % (uwhy, tm.show(it_, 2), why), node=d.node)
+        if sums and not hits:
+            continue
         if len(hits) < minimum:
             raise AnalysisError(R, "%s: expected >= %d divisions of a loop accumulator, found %d" % (qual, minimum, len(hits)))
         seen_keys = {}
